@@ -51,6 +51,7 @@ func sweepProgram(c *sim.RunCtx, src []byte, wellBehaved bool, gaps []int, nontr
 	nsch := 3
 	schs := make([]sim.Schedule, nsch)
 	cuts := make([][]int, nsch)
+	goOn := make([]bool, nsch) // the history continues after a call that failed with a PostScript error
 	for i := range schs {
 		schs[i] = gen.GenSchedule(t, len(src), false)
 		if schs[i].Mode == sim.ChunkRandom {
@@ -60,6 +61,7 @@ func sweepProgram(c *sim.RunCtx, src []byte, wellBehaved bool, gaps []int, nontr
 			for k := 1 + t.Choose(3); k > 0; k-- {
 				cuts[i] = append(cuts[i], sim.Pick(t, gaps))
 			}
+			goOn[i] = t.Bool(1, 2)
 		}
 	}
 
@@ -69,14 +71,29 @@ func sweepProgram(c *sim.RunCtx, src []byte, wellBehaved bool, gaps []int, nontr
 	refD := make([]string, nsch)
 	refE := make([]string, nsch)
 	refT := make([]int, nsch)
+	cfgRunaway := make([]bool, nsch)
 	for i := range schs {
 		refT[i] = T
+		cfgRunaway[i] = runaway
 		if runaway {
 			continue
 		}
-		r := runPS(newInterp(0), src, schs[i], cuts[i], sim.Fault{}, nil)
-		refD[i], refE[i], refT[i] = dump.Interp(r.In), dump.Err(r.Err), r.In.NumOps
-		if refT[i] != T || refD[i] != refDump || refE[i] != refErr {
+		if goOn[i] {
+			// a history that goes on after an error may reach code the one-call
+			// run never saw (e.g. an endless loop): find out under the safety budget
+			rb := runPSHistory(newInterp(c11Big), src, schs[i], cuts[i], sim.Fault{}, nil, true)
+			if rb.Err == postscript.ErrExecutionLimitExceeded {
+				cfgRunaway[i] = true
+				refT[i] = c11Big
+				continue
+			}
+		}
+		r := runPSHistory(newInterp(0), src, schs[i], cuts[i], sim.Fault{}, nil, goOn[i])
+		refD[i], refE[i], refT[i] = dump.Interp(r.In), dump.Err(r.Err)+r.Trail, r.In.NumOps
+		if goOn[i] && r.Calls > 1 && r.Trail != "" {
+			st.Inc("probe_history_continues_after_postscript_error")
+		}
+		if !goOn[i] && (refT[i] != T || refD[i] != refDump || refE[i] != refErr) {
 			st.Inc("delivery_dependent_reference(C12 business)")
 		}
 	}
@@ -109,7 +126,7 @@ func sweepProgram(c *sim.RunCtx, src []byte, wellBehaved bool, gaps []int, nontr
 			continue
 		}
 		k := N % nsch
-		ex := runPS(newInterp(N), src, schs[k], cuts[k], sim.Fault{}, nil)
+		ex := runPSHistory(newInterp(N), src, schs[k], cuts[k], sim.Fault{}, nil, goOn[k])
 		st.Inc("budgeted_runs")
 		st.Inc("fired_budget_interruption")
 		st.Add("sim_ticks", int64(ex.In.NumOps))
@@ -126,8 +143,12 @@ func sweepProgram(c *sim.RunCtx, src []byte, wellBehaved bool, gaps []int, nontr
 			return &sim.Outcome{Class: "no-progress", Key: "budget:no-progress", Detail: "interpreter kept reading after the source had ended", Human: human()}
 		}
 		T := refT[k]
+		runaway := cfgRunaway[k]
+		if runaway && N >= c11Big {
+			continue
+		}
 		if !runaway && N >= T {
-			d, e := dump.Interp(ex.In), dump.Err(ex.Err)
+			d, e := dump.Interp(ex.In), dump.Err(ex.Err)+ex.Trail
 			refDump, refErr := refD[k], refE[k]
 			if ex.In.NumOps != T || d != refDump || e != refErr {
 				return &sim.Outcome{Class: "budget-changes-result", Key: "budget:changes-result",
